@@ -409,6 +409,18 @@ pub fn worker(ctx: &WorkerCtx) -> Report {
             handle(&src, &format!("nesting depth {d} of construct {ci}"), &mut rep);
         }
     }
+    // (v) every program of the Fun families (the well-typed programs the other properties run): an
+    // accepted program must pass every later stage and code generator without a crash
+    {
+        use crate::generate::funfam::{all_fun_families, FunCase, FunCfg, FunSink};
+        let fcfg = FunCfg { thorough, small_max: if thorough { 5 } else { 4 }, with_unsequenced: true };
+        let mut fh = |fc: FunCase| {
+            rep.distinct.push(hash64(&fc.src));
+            handle(&fc.src, &format!("family program {}", fc.name), &mut rep);
+        };
+        let mut fsink = FunSink { idx: 0, shard: ctx.shard, n: ctx.nshards, f: &mut fh };
+        all_fun_families(&fcfg, &mut fsink);
+    }
     // a slice through the real binary, including byte strings that are not valid UTF-8
     if ctx.shard == 0 {
         binary_slice(&mut rep);
